@@ -102,7 +102,7 @@ Section ANSGEN.
       rewrite (same_set_iff _ _ Hs). cbn [app]. f_equal. apply IH. intros g' Hg'. apply HL. now right. }
     pose proof (Hkeyed0 SEL Hsel) as Hkeyed. fold res in Hkeyed.
     destruct Hdeq as [N1 [N2 E]].
-    unfold result_ok. fold res. rewrite Hkeyed. apply andb_true_iff. split; [apply andb_true_iff; split|].
+    unfold result_ok, result_ok_j. fold res. rewrite Hkeyed. apply andb_true_iff. split; [apply andb_true_iff; split|].
     - unfold res. rewrite !map_length. apply Nat.eqb_refl.
     - apply distinct_strs_NoDup. unfold res. rewrite map_map. cbn [fst].
       assert (Hnd : NoDup (map (fun g => t_trace (view g)) (SEL ++ rest))).
